@@ -53,7 +53,10 @@ class Session:
         if isinstance(v, frozenset) and not v:
             return 'Zfrozenset'
         kind = None
-        if isinstance(v, list):
+        sub = {'OrderedDict': 'orddict', 'defaultdict': 'defdict', 'Counter': 'counter', 'MyList': 'mylist'}.get(type(v).__name__)
+        if sub is not None and not v:
+            kind = sub
+        elif isinstance(v, list):
             kind = 'list' if not v else 'user%s' % (v[0],)
         elif isinstance(v, dict):
             kind = 'dict' if not v else 'dictX'
@@ -78,6 +81,13 @@ class Session:
 
 def run_class(c, idx):
     name = 'c16_mod_%d' % idx
+    # typing caches generic aliases by EQUALITY of their parameters, and Union[int, str] == Union[str, int],
+    # Literal[0, ''] == Literal['', 0]: `Annotated[Union[str, int], 'm']` written in this class could come back as
+    # the alias built for an earlier class with the members in another order.  Every class starts with empty caches,
+    # as in an interpreter of its own.
+    import typing
+    for clear in getattr(typing, '_cleanups', []):
+        clear()
     mod = types.ModuleType(name)
     sys.modules[name] = mod
     out = []
